@@ -39,6 +39,7 @@ from optuna.storages._rdb.storage import _create_scoped_session
 from optuna.trial import TrialState
 
 from verif import core
+from verif.props import c19_rdb
 
 optuna.logging.set_verbosity(optuna.logging.ERROR)
 warnings.simplefilter("ignore")
@@ -1118,6 +1119,9 @@ def free_race(chk: core.Check) -> None:
 
 def search(chk: core.Check) -> None:
     """Failing-input search after a breakage: many more schedules; only the model-independent oracle matters."""
+    c19_rdb.search(chk)  # boundary ages / retry arithmetic on the SQL side first (cheap, deterministic)
+    if chk.violations:
+        return
     base = 5_000_000 + chk.seed * 100_000
     n = 360 if chk.tier == "quick" else 2500
     chk.search_log.append("searching %d more schedules (model-independent oracle only)" % n)
@@ -1125,9 +1129,10 @@ def search(chk: core.Check) -> None:
 
 
 def main(chk: core.Check) -> int:
-    chk.rule = RULE
+    chk.rule = RULE + " || " + c19_rdb.RULE_RDB
+    c19_rdb.translate(chk)  # Generated/StaleGen.lean (+ RdbCodec, Best) from the working tree, before the proofs are checked
     if not getattr(chk, "no_prove", False):
-        chk.prove()
+        chk.prove(["OptunaVerif.Props.C19", "OptunaVerif.Props.C19Rdb"])
     code_shape(chk)
     quick = chk.tier == "quick"
     n = 320 if quick else 6000
@@ -1137,10 +1142,11 @@ def main(chk: core.Check) -> int:
         explore(chk, [base + i for i in range(n)])
     except core.DriverBroken as e:
         chk.broke("correspondence", {"driver": str(e)[:800]})
+    c19_rdb.correspond(chk, chk.tier)  # the SQL side: relational heartbeat model vs RDBStorage, virtual database clock
     free_race(chk)
     chk.assumptions += [
         "one storage call = one atomic step: RDBStorage.set_trial_state_values changes the state with one conditional UPDATE (SQLite/SQLAlchemy statement + transaction semantics are trusted); the gated tie serialises calls, the free-running thread/process races sample the real interleavings without the model",
-        "staleness = age of the trial_heartbeats row against the DB clock; ages are produced by rewriting the rows (ticks of 100..400 s, grace 250 s), so the boundary age == grace and the heartbeat thread's timing are not exercised",
+        "staleness = age of the trial_heartbeats row against the DB clock; in the gated tie ages are produced by rewriting the rows (ticks of 100..400 s, grace 250 s); the boundary (age == grace, +-1 us, +-1 s, > 1 day, negative) is exercised by the c19_rdb tie on a virtual database clock; the heartbeat thread's timing is not exercised",
         "all workers use the same grace period, callback and max_retry; nobody but RetryFailedTrialCallback writes the system attributes failed_trial / retry_history; no study is deleted during a sweep",
         "the stale query's row order is taken from the implementation (the model is proved for every order)",
     ]
@@ -1160,6 +1166,8 @@ def replay(chk: core.Check, path: str) -> int:
 def _replay(chk: core.Check, path: str) -> int:
     payload = json.load(open(path))
     w = payload.get("witness") or {}
+    if "rdb_case" in w:
+        return c19_rdb.replay(chk, w["rdb_case"])
     spec = w.get("spec")
     if spec is None and "mode" in w:
         # a free-running race: not deterministic; run the same rounds again (same seed) and report what fails now
